@@ -191,9 +191,15 @@ def run_inprocess(args, cwd):
 def run_subprocess(args, cwd, repo=None):
     from .core import REPO
     env = dict(os.environ, PYTHONPATH=repo or REPO, PYTHONDONTWRITEBYTECODE="1")
-    p = subprocess.run(["/venv/bin/python", "-m", "btc_hd_wallet"] + list(args), cwd=cwd, env=env, stdout=subprocess.PIPE,
-                       stderr=subprocess.PIPE, timeout=300)
+    try:
+        p = subprocess.run(["/venv/bin/python", "-m", "btc_hd_wallet"] + list(args), cwd=cwd, env=env, stdout=subprocess.PIPE,
+                           stderr=subprocess.PIPE, timeout=TIMEOUT[0])
+    except subprocess.TimeoutExpired:
+        return "timeout", "", "did not finish within %d s" % TIMEOUT[0], []
     return p.returncode, p.stdout.decode("utf-8", "replace"), p.stderr.decode("utf-8", "replace"), []
+
+
+TIMEOUT = [300]
 
 
 def run_subprocess_closed_stdout(args, cwd, repo=None):
@@ -284,7 +290,7 @@ def observe(vec, mode, password=None):
                 equals = False
         elif code == 0:
             equals = False
-        obs = {"exit": 0 if code == 0 else 1, "raw_exit": code if isinstance(code, int) else 1, "stdout": cls, "content": content,
+        obs = {"exit": 0 if code == 0 else 1, "raw_exit": code if isinstance(code, int) else 1, "timed_out": code == "timeout", "stdout": cls, "content": content,
                "created": bool(created), "overwrote": bool(changed or removed), "fs_changed": bool(created or changed or removed),
                "net": net, "rowpaths": rowpaths, "equals_api": bool(equals),
                "opened_existing": [o for o in opened if os.path.basename(o) in PRECIOUS]}
